@@ -19,6 +19,22 @@ PROP = {
                     "'store responds' is read as 'every flush succeeds' (F11 documents the other reading)"],
 }
 
+PROP["jobs"].append({"harness": "h_srcack", "comp": "srcnode", "driver": "srcack", "n_quick": 150, "n_thorough": 3000, "timeout": 2400,
+                     "relevant": lambda case: "fail:" in case["model"] or case["impl"] != "ok",
+                     "why": "the real connector.Source behind a real v1 stream.SourceNode (fake plugin handing out records on demand): runs "
+                            "with records, graceful stop, restart from the store, stop again (also idle): the position the real Source.Stop "
+                            "returns is not the last record handed out in that run, the node does not leave its loop (NH), or the trace "
+                            "(Stop, control message, loop end, deferred Teardown, acks, commits) is not a run of M3 + read side"})
+PROP["rule"] += ("; srcnode: 1-3 runs of one connector behind a real SourceNode, 0-4 records per run (0 = resumed run idle), flush triggers, "
+                 "graceful stop of every run, restarts from the store in between; srcstop additionally has a stop-position shape "
+                 "(records, Stop RPC, Teardown, restart, Stop idle or after k records)")
+PROP["strength"] += ("; stop position / v1 SourceNode stop protocol (read-side layer rstep over M3): C06_stop_position_is_last_read, "
+                     "C06_v1_source_node_ends, C06_v1_stop_no_deadlock, C06_v1_restart_idle_stop_ends for every event list of the code shape "
+                     "'Source.Stop returns the plugin reply' (regenerated fact); the other shape hangs (C06_v1_stop_fallback_hangs)")
+PROP["assumptions"] += ["plugin contract for the stop position: the Stop reply is the position of the last record the plugin handed out in "
+                        "this run (empty if none), records come in read order after the opened position, none after Stop (the fake plugin "
+                        "implements it; emit guard of rstep)"]
+
 PROP["jobs"].append({"harness": "h_stream", "comp": "pipe", "n_quick": 400, "n_thorough": 6000, "timeout": 3000,
                      "why": "a run of the real v1 node graph with a graceful stop at a random instant hangs, panics, or its trace (writes, acks, "
                             "teardown-time nacks) is not a behaviour of the v1 pipeline model"})
